@@ -168,7 +168,7 @@ func evalStringConst(src string) (string, bool) {
 // checkSanitisers: the bodies of the sanitiser functions, on their constants.
 func checkSanitisers(c *Ctx, gen *packages.Package) {
 	rule := "C09.R3.sanitisers"
-	c.Rule(rule, "sanitiser functions: padComment joins lines with a `//` prefix, blockComment removes every `*/`, escapeBackticks / generateReadableSpec replace a backtick by text that, inside a Go raw string, evaluates back to a backtick", 4)
+	c.Rule(rule, "sanitiser functions: padComment joins lines with a `//` prefix, blockComment removes every `*/`, escapeBackticks / generateReadableSpec replace a backtick by text that, inside a Go raw string, evaluates back to a backtick; padComment rewrites a line that starts with +build", 5)
 	info := gen.TypesInfo
 	// generic finder: calls to strings.ReplaceAll/Replace/Join/NewReplacer with constant arguments inside a function
 	constArgs := func(body ast.Node, callee string) [][]string {
@@ -245,6 +245,50 @@ func checkSanitisers(c *Ctx, gen *packages.Package) {
 			return true
 		})
 		c.Check(split && join, rule, "generator.padComment › every line re-prefixed with //", c.posOf(gen, fd.Pos()), "splits on \\n and joins with \\n// + padding", "padComment does not split on newlines and re-join with a `//` prefix: continuation lines of a description become code")
+		// `// +build …` is a build constraint wherever it stands in the file (the formatter hoists
+		// it): a line of free text that starts with +build must not keep that start
+		neutralised := false
+		ast.Inspect(fd.Body, func(n ast.Node) bool {
+			ifs, ok := n.(*ast.IfStmt)
+			if !ok {
+				return true
+			}
+			call, ok := ast.Unparen(ifs.Cond).(*ast.CallExpr)
+			if !ok || len(call.Args) != 2 {
+				return true
+			}
+			fn := goan.Callee(info, call)
+			if fn == nil || goan.CalleeName(fn) != "strings.HasPrefix" {
+				return true
+			}
+			if s, ok := goan.StringVal(info, call.Args[1]); !ok || !strings.HasPrefix("+build", s) || s == "" {
+				return true
+			}
+			// the guarded branch stores a replacement for the line whose constant head is not "+…"
+			for _, st := range ifs.Body.List {
+				as, ok := st.(*ast.AssignStmt)
+				if !ok || len(as.Lhs) != 1 || len(as.Rhs) != 1 {
+					continue
+				}
+				if _, isIx := ast.Unparen(as.Lhs[0]).(*ast.IndexExpr); !isIx {
+					continue
+				}
+				head := as.Rhs[0]
+				for {
+					be, ok := ast.Unparen(head).(*ast.BinaryExpr)
+					if !ok || be.Op != token.ADD {
+						break
+					}
+					head = be.X
+				}
+				if hs, ok := goan.StringVal(info, head); ok && hs != "" && !strings.HasPrefix(hs, "+") && !strings.HasPrefix(strings.TrimLeft(hs, " \t"), "+build") {
+					neutralised = true
+				}
+			}
+			return true
+		})
+		c.Check(neutralised, rule, "generator.padComment › a line starting with +build is rewritten", c.posOf(gen, fd.Pos()), "lines with the prefix +build get another head",
+			"padComment lets a line of free text that starts with `+build` through: `// +build ignore` in any comment of a generated file is a build constraint (gofmt moves it to the top of the file), so a description decides whether the file is compiled")
 	}
 	// escapeBackticks (FuncMap literal) and generateReadableSpec
 	checkTick := func(name string, body ast.Node, pos token.Pos) {
